@@ -51,6 +51,29 @@ PROPS["C09"] = {
     "partial": "accept/reject, H', H0, rounding, index mapping proved; the block-filling recurrence as a whole is tied by RFC vectors + correspondence + libsodium, not proved equal to RFC 9106's B[i][j]",
 }
 
+PROPS["C18"] = {
+    "theorems": [
+        {"name": "C18_simd_compress", "status": "proved", "statement": "forall 8-word chaining value, counter, flags, block: the SIMD compression function as translated from blake2b_simd.rs this run (message loads, 12 rounds of swizzles, lane-wise G1/G2, permute/unpermute, IV, epilogue) = the software compression function"},
+        {"name": "C18_simd_hash", "status": "proved", "statement": "forall length, input, key: one-shot BLAKE2b on the SIMD backend = on the software backend (which is proved = RFC 7693)"},
+        {"name": "C18_simd_longhash", "status": "proved", "statement": "forall length, input: Argon2's variable-length hash on the SIMD backend = on the software backend"},
+        {"name": "C18_simd_incremental", "status": "proved", "statement": "forall init parameters, sequence of updates, output length: init / update* / finalize on the SIMD backend = on the software backend"},
+        {"name": "C18_buffering_same", "status": "proved", "statement": "the buffering / driver functions (increment_counter, init, update, finalize, flags, hash, longhash) of blake2b_simd.rs and blake2b_soft.rs, comments and layout removed and the state fields renamed, are identical strings (regenerated each run)"},
+        {"name": "C18_example", "status": "proved", "statement": "non-vacuity: the translated SIMD code computes BLAKE2b-512(abc) of RFC 7693 appendix A, by vm_compute"},
+    ],
+    "gen_obligations": ["Gen/SimdKernel.v regenerated from src/blake2b/blake2b_simd.rs (compress body statement by statement; loadm, rotru64, g1, g2, permute, unpermute, init0, init_param matched against templates with their constants extracted) and from blake2b_soft.rs (buffering token strings)",
+                        "GenTie.blake2b_tables_tie", "GenTie.blake2b_params_tie"],
+    "builds": ["stable", "nightly", "simd"],
+    "cross_build": True,
+    "timeout": 6000,
+    "rule": "ONE probe corpus -- the C07 (hashes, every length / key), C08 (every chunking), C12 (kdf), C09 (pwhash grid), C05 (X25519 / kx) and C13 (signatures) generators, then a container section (generic hash, kdf, box precalculation, key pairs, kx sessions, boxes, secret boxes, signatures, pwhash through stack / Vec and, on nightly, heap / locked / locked-read-only containers against the classic functions and libsodium) -- is run under each of {default, nightly, nightly + simd_backend}. "
+            "Every transcript is compared with the extracted model (correspondence per build) and the transcripts are compared case by case with each other (cross_build). non-trivial: as in the source properties",
+    "modelled": ["the SIMD compression function is TRANSLATED (not hand-modelled); std::simd semantics (lane-wise wrapping +, ^, shifts; simd_swizzle! index convention: lanes 0..3 of the first operand, 4..7 of the second) are given by Impl/Blake2bSimd.v and validated by the simd build's correspondence",
+                 "the buffering code of blake2b_simd.rs is compared with blake2b_soft.rs as text after renaming the state fields; the software buffering is the one modelled (Impl/Blake2b.v)",
+                 "containers, the nightly/default configuration switch, sha2's assembly backend and curve25519-dalek's backends are not in the model: cross-build / container comparison only"],
+    "assumptions": ["std::simd portable SIMD semantics as stated", "libsodium as the reference in the container section"],
+    "partial": "backend equality proved for BLAKE2b (the only hand-written backend switch); build configuration and containers decided by exhaustive comparison over the corpus, not proved",
+}
+
 _SYM_MODELLED = ["XSalsa20 / ChaCha20 / HChaCha20 are the external crates salsa20 / chacha20 (and hand-written cores): modelled by Coq specifications (Spec/Salsa20.v, Spec/ChaCha20.v) and tied by correspondence only",
                  "Poly1305: hand-written model of poly1305_soft.rs (Impl/Poly1305.v) tied by correspondence (incl. adversarial carry operands)",
                  "subtle::ct_eq modelled as byte-string equality; zeroize not modelled"]
